@@ -46,6 +46,7 @@ fn main() {
         }
         i += 1;
     }
+    std::env::set_var("ZCHECK_TIER", &tier);
     let seed: u64 = std::env::var("VERIF_SEED").ok().and_then(|s| s.parse().ok()).unwrap_or(1);
     let prop = match props.iter().find(|p| p.id() == id) {
         Some(p) => p,
